@@ -1,7 +1,7 @@
 (* Gen_Arith.v - GENERATED on every check by harness/t_arith.py from libks/arithmetic.c
-   (clang JSON AST, macros expanded).  Do not edit. *)
+   (clang JSON AST, macros expanded) and libks/arithmetic.h (entry points).  Do not edit. *)
 From Coq Require Import ZArith List.
-From Robsd Require Import Base.CInt.
+From Robsd Require Import Base.CInt Ks.ArithBuiltinDefs.
 Import ListNotations.
 Local Open Scope Z_scope.
 
@@ -196,3 +196,36 @@ Definition KS_size_mul_overflow0 (a b : Z) : cres :=
     (cstore TULong (cmul TULong (cvar a) (cvar b)) (fun st =>
     (creturn (clit TInt 0) st)))).
 Definition KS_size_mul_overflow0_sig : list cty * cty := ([TULong; TULong], TULong).
+
+(* arithmetic.h: static inline entry points; with the builtin: __builtin_<op>_overflow(a, b, c) ? 1 : 0,
+   without it: the fallback above *)
+Definition KS_i32_add_overflow_builtin (a b : Z) : cres := cbuiltin_overflow TInt BAdd a b.
+Definition KS_i32_add_overflow_nobuiltin (a b : Z) : cres := KS_i32_add_overflow0 a b.
+Definition KS_i32_sub_overflow_builtin (a b : Z) : cres := cbuiltin_overflow TInt BSub a b.
+Definition KS_i32_sub_overflow_nobuiltin (a b : Z) : cres := KS_i32_sub_overflow0 a b.
+Definition KS_i32_mul_overflow_builtin (a b : Z) : cres := cbuiltin_overflow TInt BMul a b.
+Definition KS_i32_mul_overflow_nobuiltin (a b : Z) : cres := KS_i32_mul_overflow0 a b.
+Definition KS_i64_add_overflow_builtin (a b : Z) : cres := cbuiltin_overflow TLong BAdd a b.
+Definition KS_i64_add_overflow_nobuiltin (a b : Z) : cres := KS_i64_add_overflow0 a b.
+Definition KS_i64_sub_overflow_builtin (a b : Z) : cres := cbuiltin_overflow TLong BSub a b.
+Definition KS_i64_sub_overflow_nobuiltin (a b : Z) : cres := KS_i64_sub_overflow0 a b.
+Definition KS_i64_mul_overflow_builtin (a b : Z) : cres := cbuiltin_overflow TLong BMul a b.
+Definition KS_i64_mul_overflow_nobuiltin (a b : Z) : cres := KS_i64_mul_overflow0 a b.
+Definition KS_u32_add_overflow_builtin (a b : Z) : cres := cbuiltin_overflow TUInt BAdd a b.
+Definition KS_u32_add_overflow_nobuiltin (a b : Z) : cres := KS_u32_add_overflow0 a b.
+Definition KS_u32_sub_overflow_builtin (a b : Z) : cres := cbuiltin_overflow TUInt BSub a b.
+Definition KS_u32_sub_overflow_nobuiltin (a b : Z) : cres := KS_u32_sub_overflow0 a b.
+Definition KS_u32_mul_overflow_builtin (a b : Z) : cres := cbuiltin_overflow TUInt BMul a b.
+Definition KS_u32_mul_overflow_nobuiltin (a b : Z) : cres := KS_u32_mul_overflow0 a b.
+Definition KS_u64_add_overflow_builtin (a b : Z) : cres := cbuiltin_overflow TULong BAdd a b.
+Definition KS_u64_add_overflow_nobuiltin (a b : Z) : cres := KS_u64_add_overflow0 a b.
+Definition KS_u64_sub_overflow_builtin (a b : Z) : cres := cbuiltin_overflow TULong BSub a b.
+Definition KS_u64_sub_overflow_nobuiltin (a b : Z) : cres := KS_u64_sub_overflow0 a b.
+Definition KS_u64_mul_overflow_builtin (a b : Z) : cres := cbuiltin_overflow TULong BMul a b.
+Definition KS_u64_mul_overflow_nobuiltin (a b : Z) : cres := KS_u64_mul_overflow0 a b.
+Definition KS_size_add_overflow_builtin (a b : Z) : cres := cbuiltin_overflow TULong BAdd a b.
+Definition KS_size_add_overflow_nobuiltin (a b : Z) : cres := KS_size_add_overflow0 a b.
+Definition KS_size_sub_overflow_builtin (a b : Z) : cres := cbuiltin_overflow TULong BSub a b.
+Definition KS_size_sub_overflow_nobuiltin (a b : Z) : cres := KS_size_sub_overflow0 a b.
+Definition KS_size_mul_overflow_builtin (a b : Z) : cres := cbuiltin_overflow TULong BMul a b.
+Definition KS_size_mul_overflow_nobuiltin (a b : Z) : cres := KS_size_mul_overflow0 a b.
